@@ -9,7 +9,7 @@
 From Coq Require Import Reals List ZArith.
 Import ListNotations.
 From Coquelicot Require Import Coquelicot.
-From MG Require Import Model.RealOps Gen.VjpScalar Proofs.VjpP1 Proofs.VjpP2 Base.EngCore Model.OpsExact Proofs.OpsExactP Model.VecOps Proofs.VecP Proofs.VecP2 Proofs.VecP3.
+From MG Require Import Model.RealOps Gen.VjpScalar Proofs.VjpP1 Proofs.VjpP2 Base.EngCore Model.OpsExact Proofs.OpsExactP Model.VecOps Proofs.VecP Proofs.VecP2 Proofs.VecP3 Proofs.VecP4.
 Open Scope R_scope.
 
 Theorem C02_Add_vjp_0 : forall g a b, is_derive (fun x => g * Add_fwd x b) a (Add_bwd_0 g a b).
@@ -359,6 +359,11 @@ Print Assumptions C02_loss_margin_b_vjp.
 Theorem C02_loss_focal_vjp : forall g alpha gamma p, 0 < p -> p < 1 -> is_derive (fun t => g * vfocal alpha gamma t) p (focal_bwd g alpha gamma p).
 Proof. exact focal_vjp. Qed.
 Print Assumptions C02_loss_focal_vjp.
+
+(* cumulative product of one lane, at every position whose element is non-zero (the zero-patching branches are checked numerically) *)
+Theorem C02_lane_cumprod_vjp : forall g l i, (i < length l)%nat -> length g = length l -> nth i l 0 <> 0 -> is_derive (fun t => dot g (vcumprod (upd l i t))) (nth i l 0) (cumprod_bwd g l i).
+Proof. exact cumprod_vjp. Qed.
+Print Assumptions C02_lane_cumprod_vjp.
 
 (* structural operations: the registry theorem (shared with C01) *)
 Theorem C02_registry_ops_exact :
